@@ -66,7 +66,7 @@ CHECKS.update({
    "For every op sequence up to the completed depth (clock steps, swaps moving positions in/out of range, liquidity changes, updates, collects against a vault holding exactly one day of emissions, emission changes incl. refused ones, late reward initialisation): credited rewards are within the two-sided rounding bound of the exact share; nothing accrues at zero liquidity or for uninitialised rewards; earlier timestamps fail; collect pays min(owed, vault); emission changes settle at the old rate and need a day of emissions.",
    SVM, "DESIGN.md §3 C11"),
  "C15": (A, "fault_enumeration",
-   "complete substitution matrix: every account slot of every fund-moving instruction (plus update_fees_and_rewards and set_reward_emissions) x every same-typed foreign account (twin universe, sibling pool / position incl. never-funded ones / reward index / token program), executed on the real program; every writable slot of every judged instruction handed over read-only (must fail or end in the same state); exact-out requests beyond the reserves through a world with a deep and a nearly empty full-range-only pool",
+   "complete substitution matrix: every account slot of every fund-moving instruction (plus update_fees_and_rewards and set_reward_emissions) x every same-typed foreign account (twin universe, sibling pool / position incl. never-funded ones / reward index / token program) and mutually consistent foreign groups (position + its token account + its tick arrays; config + its authority; a reward index's whole account set), executed on the real program; every writable slot of every judged instruction handed over read-only (must fail or end in the same state); exact-out requests beyond the reserves through a world with a deep and a nearly empty full-range-only pool",
    "Every non-exempt substitution is rejected with the ledger unchanged (16 instructions, SPL and mixed Token-2022 variants, 4-6 root states); exemptions are listed with justification in the evidence.",
    SVM + " Only rejection by some layer is required (a constraint duplicated by the token program cannot be isolated by outcome).", "DESIGN.md §3 C15"),
 })
